@@ -192,8 +192,8 @@ def simulate(sched, t0, cancel_at=INF):
                 t_c = max(t_c, sub.over)
             else:
                 end = t_close + S.script_time(m.get('cleanup'))
-                kind = 'cexc' if m.get('cleanup_outcome') == 'exc' \
-                    else 'cancelled'
+                kind = {'exc': 'cexc', 'ret': 'cret'}.get(
+                    m.get('cleanup_outcome'), 'cancelled')
                 pred.members[mid] = (start, end, kind)
                 t_c = max(t_c, end)
         else:
@@ -242,7 +242,8 @@ def simulate(sched, t0, cancel_at=INF):
             # still waiting for cancelled jobs: they are cancelled again,
             # which cuts their cleanup short; then the shutdown phase
             for mid, (start, end, kind) in list(pred.members.items()):
-                if kind in ('cancelled', 'cexc') and end > late_cancel:
+                if kind in ('cancelled', 'cexc', 'cret') \
+                        and end > late_cancel:
                     if mid in pred.subs:
                         raise Tie("nested run cancelled twice")
                     pred.members[mid] = (start, late_cancel, kind)
@@ -340,7 +341,7 @@ def compare(hist, pred_top):
             if start is None:
                 continue
             if (a_end, a_kind) != (end, kind):
-                active_at_close = kind in ('cancelled', 'cexc')
+                active_at_close = kind in ('cancelled', 'cexc', 'cret')
                 out.append((tprop if active_at_close else 'C14',
                             'model:job-end' + ('-at-' + trig
                                                if active_at_close else ''),
